@@ -1353,6 +1353,10 @@ func regexpToWordMatchTree(q *query.Regexp, opt matchTreeOpt) (_ *wordMatchTree,
 	if sub[0].Op != syntax.OpWordBoundary || sub[1].Op != syntax.OpLiteral || sub[2].Op != syntax.OpWordBoundary {
 		return nil, false
 	}
+	// \b(?i:foo)\b carries the fold-case flag on the literal, not on the concatenation.
+	if sub[1].Flags&syntax.FoldCase != 0 {
+		return nil, false
+	}
 
 	// wordMatchTree checks the two word boundaries by looking at the byte before
 	// and the byte after an occurrence of the literal: that is what \b means only
